@@ -4,6 +4,7 @@
 // nondeterminism: every choice comes from the plan or from the per-step
 // scheduler stream seeded by the plan.
 #pragma once
+#include <functional>
 #include <csetjmp>
 #include <deque>
 #include <map>
@@ -87,6 +88,8 @@ struct Kernel {
 	KernelClient *client = nullptr;
 	Knobs knobs;
 	long step_budget = 400000, run_budget = 3000000;
+	long extra_cache = -1;
+	std::function<long()> budget_extra;	// allowance on top of the budgets (set by the run: 40 calls per buffer line + 4 per byte)
 
 	// ---- state
 	long long clock_ns = 0;
